@@ -82,13 +82,6 @@ def lookup (tbl : Tbl) (ap : Bool) (frame : Bytes) : Option Content :=
 def entsEq (ap : Bool) (a b : List (Nat × Bytes)) : Bool :=
   if ap then decide (a = b) else decide (a.map (·.2) = b.map (·.2))
 
-def reachEnts : Content → List (Nat × Bytes)
-  | .reach _ e _ _ => e
-  | _ => []
-def unreachEnts : Content → List (Nat × Bytes)
-  | .unreach _ e => e
-  | _ => []
-
 /-- flags agree except for the extended-length bit, which follows the encoding (the decoder keeps the
     wire flags; C04 names this canonicalisation) -/
 def flagsAgree (wire intended : Nat) : Bool :=
@@ -103,22 +96,19 @@ def allMatch {α β} (f : α → β → Bool) : List α → List β → Bool
   | a :: as, b :: bs => f a b && allMatch f as bs
   | _, _ => false
 
-/-- the parsed PDUs jointly carry the monitored message -/
-def carries (ap : Bool) (mon : Content) (ps : List Content) : Bool :=
-  match mon with
-  | .reach fam ents nh attrs =>
-      !ps.isEmpty &&
-      ps.all (fun p => match p with
-        | .reach f _ n a => decide (f = fam) && decide (n = nh) && allMatch attrAgrees a attrs
-        | _ => false) &&
-      entsEq ap (ps.flatMap reachEnts) ents
-  | .unreach fam ents =>
-      !ps.isEmpty &&
-      ps.all (fun p => match p with
-        | .unreach f _ => decide (f = fam)
-        | _ => false) &&
-      entsEq ap (ps.flatMap unreachEnts) ents
-  | m => decide (ps = [m])
+/-- the NLRI of an UPDATE content (none for End-of-RIB and for other messages) -/
+def entsOf : Content → List (Nat × Bytes)
+  | .reach _ e _ _ => e
+  | .unreach _ e => e
+  | _ => []
+
+/-- a decoded PDU is a piece of the monitored message: same kind, family, next hop and attributes (for
+    End-of-RIB and non-UPDATE messages: the same message) -/
+def compat (mon c : Content) : Bool :=
+  match mon, c with
+  | .reach f _ n a, .reach f' _ n' a' => decide (f' = f) && decide (n' = n) && allMatch attrAgrees a' a
+  | .unreach f _, .unreach f' _ => decide (f' = f)
+  | m, c => decide (c = m)
 
 /-- salient input class of a monitored message (part of the failure signature) -/
 def nhClass : Content → String
@@ -129,19 +119,37 @@ def nhClass : Content → String
   | .reach _ _ none _ => "no-nexthop"
   | _ => "plain"
 
-/-- `s` must be BGP UPDATE PDU(s) that the decoder reads back as `mon`; exactly one PDU. -/
-def checkUpdatePdus (who : String) (tbl : Tbl) (ap : Bool) (mon : Content) (s : Bytes) : Option String :=
+/-- `s` must be exactly ONE complete BGP UPDATE PDU (RFC 7854 §4.6, RFC 6396 §4.4.2); what the decoder reads in it -/
+def readOnePdu (who : String) (tbl : Tbl) (ap : Bool) (s : Bytes) : Except String Content :=
   match bgpFrames (s.length + 1) s with
-  | none => some s!"{who}-pdu-not-framed"
+  | none => .error s!"{who}-pdu-not-framed"
   | some fs =>
-    if fs.any (fun f => f.2 != 2) then some s!"{who}-pdu-not-update"
+    if fs.any (fun f => f.2 != 2) then .error s!"{who}-pdu-not-update"
     else
-      match fs.mapM (fun f => lookup tbl ap f.1) with
-      | none => some s!"{who}-pdu-unknown-to-decoder-table"
-      | some cs =>
-        if !carries ap mon cs then some s!"{who}-content-differs class={nhClass mon}"
-        else if fs.length != 1 then some s!"{who}-not-single-pdu"
-        else none
+      match fs with
+      | [f] =>
+        match lookup tbl ap f.1 with
+        | none => .error s!"{who}-pdu-unknown-to-decoder-table"
+        | some c => .ok c
+      | _ => .error s!"{who}-not-single-pdu"
+
+/-- A monitored UPDATE may be spread over several records (one PDU each, when it does not fit one BGP message):
+    read records with `rd` until the NLRI read so far are as many as the monitored ones; every piece must be
+    compatible with the monitored message and bring at least one NLRI, and the NLRI read must be the monitored
+    ones (with add-path: including the path identifiers). -/
+def checkSeq (rd : Bytes → Except String (Content × Bytes)) (who : String) (ap : Bool) (mon : Content) :
+    Nat → List (Nat × Bytes) → Bytes → Except String Bytes
+  | 0, _, _ => .error s!"{who}-content-differs class={nhClass mon}"
+  | fuel + 1, acc, s =>
+    match rd s with
+    | .error e => .error e
+    | .ok (c, rest) =>
+      if !compat mon c then .error s!"{who}-content-differs class={nhClass mon}"
+      else if (acc ++ entsOf c).length < (entsOf mon).length then
+        if (entsOf c).isEmpty then .error s!"{who}-content-differs class={nhClass mon}"
+        else checkSeq rd who ap mon fuel (acc ++ entsOf c) rest
+      else if entsEq ap (acc ++ entsOf c) (entsOf mon) then .ok rest
+      else .error s!"{who}-content-differs class={nhClass mon}"
 
 /-- `s` must be exactly the PDUs of the given type whose decoded contents are `mons` (add-path irrelevant) -/
 def checkPdusExact (who : String) (tbl : Tbl) (typ : Nat) (mons : List Content) (s : Bytes) : Option String :=
@@ -252,10 +260,6 @@ def reasonCode : DownReason → Nat
 /-- body of one BMP message against the record that was to be encoded -/
 def checkBmpBody (tbl : Tbl) (r : Rec) (body : Bytes) : Option String :=
   match r with
-  | .bmpRm h ap _ mon =>
-      match readPph body with
-      | none => some "bmp-per-peer-header-truncated"
-      | some (p, rest) => (firstFail (checkPph h p)).orElse fun _ => checkUpdatePdus "rm" tbl ap mon rest
   | .bmpUp h la lp rp _ monL monR =>
       match readPph body with
       | none => some "bmp-per-peer-header-truncated"
@@ -331,38 +335,39 @@ def bgp4mpSubtype : Nat → Option (Nat × Bool)
   | 9 => some (4, true)
   | _ => none
 
-def checkBgp4mp (tbl : Tbl) (h : MpHdr) (ap : Bool) (mon : Content) (sub : Nat) (body : Bytes) : Option String :=
+def readBgp4mp (tbl : Tbl) (h : MpHdr) (ap : Bool) (sub : Nat) (body : Bytes) : Except String Content :=
   match bgp4mpSubtype sub with
-  | none => some "mrt-subtype"
+  | none => .error "mrt-subtype"
   | some (asw, apRec) =>
     match take? asw body with
-    | none => some "mrt-truncated"
+    | none => .error "mrt-truncated"
     | some (ra, s) =>
     match take? asw s with
-    | none => some "mrt-truncated"
+    | none => .error "mrt-truncated"
     | some (la, s) =>
     match take? 2 s with
-    | none => some "mrt-truncated"
+    | none => .error "mrt-truncated"
     | some (ifx, s) =>
     match take? 2 s with
-    | none => some "mrt-truncated"
+    | none => .error "mrt-truncated"
     | some (afi, s) =>
-      if be afi ≠ 1 ∧ be afi ≠ 2 then some "mrt-afi"
+      if be afi ≠ 1 ∧ be afi ≠ 2 then .error "mrt-afi"
       else
         let aw := if be afi = 2 then 16 else 4
         match take? aw s with
-        | none => some "mrt-truncated"
+        | none => .error "mrt-truncated"
         | some (rip, s) =>
         match take? aw s with
-        | none => some "mrt-truncated"
+        | none => .error "mrt-truncated"
         | some (lip, s) =>
-          (firstFail [ (decide (apRec = ap), "mrt-subtype-addpath"),
+          match firstFail [ (decide (apRec = ap), "mrt-subtype-addpath"),
                        (decide (be ra = h.rasn ∧ be la = h.lasn), "mrt-as"),
                        (decide (be ifx = h.ifidx), "mrt-ifindex"),
                        (decide ((be afi = 2) ↔ h.raddr.isV6 = true), "mrt-afi-address-family"),
                        (decide (rip = h.raddr.bytes), "mrt-peer-address"),
-                       (decide (lip = h.laddr.bytes ∧ h.laddr.isV6 = h.raddr.isV6), "mrt-local-address") ]).orElse
-          fun _ => checkUpdatePdus "mrt" tbl apRec mon s
+                       (decide (lip = h.laddr.bytes ∧ h.laddr.isV6 = h.raddr.isV6), "mrt-local-address") ] with
+          | some c => .error c
+          | none => readOnePdu "mrt" tbl apRec s
 
 /-- §4.3.1 peer entries: type (bit 0: IPv6 address, bit 1: 4-byte AS), BGP id, address, AS -/
 def readPeers : Nat → Bytes → Option (List (Nat × Bytes × Bytes × Nat))
@@ -509,9 +514,59 @@ def isBmp : Rec → Bool
   | .tdRib .. => false
   | _ => true
 
-/-- check one record at the front of the stream; the rest of the stream or the failed clause -/
+/-- one Route Monitoring message of peer header `h` at the front of the stream: the content of its PDU, the rest -/
+def readRm (tbl : Tbl) (h : PeerHdr) (ap : Bool) (s : Bytes) : Except String (Content × Bytes) :=
+  match readBmpCommon s with
+  | none => .error "bmp-common-header-length"
+  | some (v, t, body, rest) =>
+    if v ≠ 3 then .error "bmp-version"
+    else if t ≠ 0 then .error "bmp-message-type"
+    else
+      match readPph body with
+      | none => .error "bmp-per-peer-header-truncated"
+      | some (p, pdu) =>
+        match firstFail (checkPph h p) with
+        | some c => .error c
+        | none =>
+          match readOnePdu "rm" tbl ap pdu with
+          | .error e => .error e
+          | .ok c => .ok (c, rest)
+
+/-- one BGP4MP message record of session header `h` at the front of the stream -/
+def readMp (tbl : Tbl) (h : MpHdr) (ap : Bool) (s : Bytes) : Except String (Content × Bytes) :=
+  match readMrtCommon s with
+  | none => .error "mrt-common-header-length"
+  | some (_, ty, st, body, rest) =>
+    if ty ≠ 16 then .error "mrt-type"
+    else
+      match readBgp4mp tbl h ap st body with
+      | .error e => .error e
+      | .ok c => .ok (c, rest)
+
+/-- check the record(s) of one item at the front of the stream; the rest of the stream or the failed clause -/
 def checkRec (tbl : Tbl) (np : Option Nat) (r : Rec) (s : Bytes) : Except String Bytes :=
-  if isBmp r then
+  match r with
+  | .bmpRm h ap _ mon => checkSeq (readRm tbl h ap) "rm" ap mon ((entsOf mon).length + 1) [] s
+  | .mrtMp h ap _ mon => checkSeq (readMp tbl h ap) "mrt" ap mon ((entsOf mon).length + 1) [] s
+  | .tdPeers ts' rid peers =>
+      match readMrtCommon s with
+      | none => .error "mrt-common-header-length"
+      | some (ts, ty, st, body, rest) =>
+        if ty ≠ 13 ∨ st ≠ 1 then .error "td-type"
+        else if ts ≠ ts' then .error "td-timestamp"
+        else match checkPeerIndex rid peers body with
+          | some c => .error c
+          | none => .ok rest
+  | .tdRib v6 ts' seq mask addr ents =>
+      match readMrtCommon s with
+      | none => .error "mrt-common-header-length"
+      | some (ts, ty, st, body, rest) =>
+        if ty ≠ 13 ∨ st ≠ (if v6 then 4 else 2) then .error "td-type"
+        else if ts ≠ ts' then .error "td-timestamp"
+        else match checkRib np v6 seq mask addr ents body with
+          | some c => .error c
+          | none => .ok rest
+  | r =>
     match readBmpCommon s with
     | none => .error "bmp-common-header-length"
     | some (v, t, body, rest) =>
@@ -520,29 +575,6 @@ def checkRec (tbl : Tbl) (np : Option Nat) (r : Rec) (s : Bytes) : Except String
       else match checkBmpBody tbl r body with
         | some c => .error c
         | none => .ok rest
-  else
-    match readMrtCommon s with
-    | none => .error "mrt-common-header-length"
-    | some (ts, ty, st, body, rest) =>
-      match r with
-      | .mrtMp h ap _ mon =>
-          if ty ≠ 16 then .error "mrt-type"
-          else match checkBgp4mp tbl h ap mon st body with
-            | some c => .error c
-            | none => .ok rest
-      | .tdPeers ts' rid peers =>
-          if ty ≠ 13 ∨ st ≠ 1 then .error "td-type"
-          else if ts ≠ ts' then .error "td-timestamp"
-          else match checkPeerIndex rid peers body with
-            | some c => .error c
-            | none => .ok rest
-      | .tdRib v6 ts' seq mask addr ents =>
-          if ty ≠ 13 ∨ st ≠ (if v6 then 4 else 2) then .error "td-type"
-          else if ts ≠ ts' then .error "td-timestamp"
-          else match checkRib np v6 seq mask addr ents body with
-            | some c => .error c
-            | none => .ok rest
-      | _ => .ok rest
 
 /-- number of peers of the PEER_INDEX_TABLE in force after `r` -/
 def nextPeers (np : Option Nat) : Rec → Option Nat
